@@ -458,6 +458,31 @@ func (a *analyzer) elemLocs(x ssa.Value) []string {
 	return out
 }
 
+// addrOfGlobal: v is the address of a package-level variable of the packages or of a part of it
+// (&g, &g.f, &g[i], without a load in between); returns the variable's name, else "".
+func (a *analyzer) addrOfGlobal(v ssa.Value) string {
+	for depth := 0; depth < 8; depth++ {
+		switch x := v.(type) {
+		case *ssa.Global:
+			if x.Pkg != nil && a.ours[x.Pkg.Pkg.Path()] {
+				return a.globalName(x)
+			}
+			return ""
+		case *ssa.FieldAddr:
+			v = x.X
+		case *ssa.IndexAddr:
+			v = x.X
+		case *ssa.ChangeType:
+			v = x.X
+		case *ssa.Convert:
+			v = x.X
+		default:
+			return ""
+		}
+	}
+	return ""
+}
+
 // refLike: values of this type can give access to shared memory.
 func refLike(t types.Type) bool {
 	switch t.Underlying().(type) {
@@ -656,14 +681,41 @@ func (a *analyzer) collect(fi *fnInfo) {
 			fi.sites = append(fi.sites, site{kind: kLeak, tgt: g, held: how, block: ins.Block()})
 		}
 	}
-	// arguments handed to a function of the packages (what a foreign function does with its
-	// arguments is invisible anyway)
+	// Arguments handed on.  To a function of the packages: a leak of whatever package-level
+	// object the argument refers to.  To a foreign function: what it does with its arguments is
+	// invisible, with two exceptions that are read as WRITES of the package-level variable:
+	//  - the address of a package-level variable (&v, &v.f, &v[i]) is handed to any foreign
+	//    function or is the receiver of a foreign method (atomic.AddInt32(&v, 1), v.Store(x) for a
+	//    v of type atomic.Value, json.Unmarshal(b, &v), once.Do on a package-level sync.Once ...):
+	//    the callee can store through it;
+	//  - a pointer handed to sync/atomic (other than to a Load) that was loaded from a
+	//    package-level variable (c.Add(1) for `var c = new(atomic.Int32)`).
+	// Atomicity removes the data race, not the sharing: a package-level variable updated after
+	// initialisation is state that independent module sets have in common.
 	passArgs := func(ins ssa.Instruction, c *ssa.CallCommon) {
 		if _, ok := c.Value.(*ssa.Builtin); ok {
 			return
 		}
 		if f := c.StaticCallee(); f != nil {
 			if _, ours := a.byFn[f]; !ours {
+				isAtomic := f.Pkg != nil && f.Pkg.Pkg.Path() == "sync/atomic" ||
+					(f.Signature.Recv() != nil && strings.Contains(f.Signature.Recv().Type().String(), "sync/atomic."))
+				atomicStore := isAtomic && !strings.HasPrefix(f.Name(), "Load")
+				for _, arg := range c.Args {
+					if g := a.addrOfGlobal(arg); g != "" {
+						add(ins, kRead, g)
+						add(ins, kWrite, g)
+						continue
+					}
+					if atomicStore {
+						if _, isPtr := arg.Type().Underlying().(*types.Pointer); isPtr {
+							for _, g := range a.globalRefs(arg) {
+								add(ins, kRead, g)
+								add(ins, kWrite, g)
+							}
+						}
+					}
+				}
 				return
 			}
 		}
